@@ -173,6 +173,11 @@ func reifyInto(opts *options, to reflect.Value, from *Config) Error {
 
 	switch k {
 	case reflect.Map:
+		// a nil pointer to a map: allocate what it points to
+		for to.Kind() == reflect.Ptr {
+			to.Set(reflect.New(to.Type().Elem()))
+			to = to.Elem()
+		}
 		return reifyMap(opts, to, from, nil)
 	case reflect.Struct:
 		return reifyStruct(opts, to, from)
